@@ -34,7 +34,7 @@ Inductive cell :=
   | Obj (t : nat)                (* the object returned by operation number t (array, contour, axes) *)
   | Rng                          (* numpy's global random state *)
   | Figs                         (* matplotlib's figure registry *)
-  | File (t : nat)               (* the file written by operation number t *)
+  | File (c : nat)               (* the file a contour is exported to (one path per contour c) *)
   | Glob (g : nat).              (* a module-level object of virocon.* (list, dict, array, random generator) *)
 
 Definition field_eqb (a b : field) : bool :=
@@ -116,7 +116,7 @@ Section Footprints.
                              ++ (match e with EmpiricalCdf => [M k SampleCache] | _ => [] end)
     | OnContour c DesignConditions args => [Obj t]
     | OnContour c PlotContour args => [Obj t; Figs]
-    | OnContour c SaveContour args => [File t]
+    | OnContour c SaveContour args => [File c]
     | Fit k data fd => fit_writes k ++ match fd with Some a => [FitDesc a] | None => [] end
     end.
 
@@ -132,9 +132,12 @@ Section Footprints.
     Variable result : op -> list V -> V.
     Variable effect : nat -> op -> list V -> cell -> V.
 
+    (* a written file is, like a returned object, a function of the operation and of what it reads: the export
+       TRUNCATES -- the new content does not depend on what the file held before (File c is not in the read set) *)
+    Definition is_file (c : cell) : bool := match c with File _ => true | _ => false end.
     Definition step (t : nat) (o : op) (h : heap) : heap :=
       fun c => if mem c (wset t o)
-               then (if cell_eqb c (Obj t) then result o (map h (rset o)) else effect t o (map h (rset o)) c)
+               then (if cell_eqb c (Obj t) || is_file c then result o (map h (rset o)) else effect t o (map h (rset o)) c)
                else h c.
 
     Fixpoint run (t : nat) (ops : list op) (h : heap) : heap :=
